@@ -90,3 +90,9 @@ claim("C02", "other", "context typing against the generated parser, grammar-deri
       "modes are stored only if integer; reported modes/length/fields are the accumulated ones.",
       "Not decided: the values of arguments (C03); walker order (trusted). Known finding: the empty-list alternative of kwarg is dropped (pinned by an existing unit test).",
       "DESIGN.md 5/C02")
+
+claim("C05", "other", "grammar-derived type-map check, def-use of casts and dtype arguments, finite-model evaluation of the shape guard, idiom recognition of the row-length guard and parameter positions, aliasing lint",
+      "Decides: the type maps have exactly the grammar's vartype literals and map to like-named types; scalars are stored through the declared constructor (symbolic values excepted); arrays are built with the declared dtype on every path; "
+      "a declared shape that differs raises before the store; ragged rows raise before the row-count reshape; parameters are recorded at their ordinal position and re-inserted in order; A[k] is row-major.",
+      "Not decided: value equality of initialisers (C03). Trusted: NumPy array construction/reshape/insert semantics.",
+      "DESIGN.md 5/C05")
